@@ -260,8 +260,17 @@ func runC19(c *Ctx) {
 						if x.High == nil {
 							return contents(x.X, depth+1)
 						}
-						if lc, ok := x.High.(*ssa.Call); ok && core.CalleeName(&lc.Call) == "builtin.len" && lc.Call.Args[0] == x.X {
-							return contents(x.X, depth+1)
+						if lc, ok := x.High.(*ssa.Call); ok && core.CalleeName(&lc.Call) == "builtin.len" {
+							same := lc.Call.Args[0] == x.X
+							// two reads of the same field of the (immutable) handler
+							n1, b1, ok1 := core.IsLoadOfField(lc.Call.Args[0])
+							n2, b2, ok2 := core.IsLoadOfField(x.X)
+							if ok1 && ok2 && n1 == n2 && b1 == b2 {
+								same = true
+							}
+							if same {
+								return contents(x.X, depth+1)
+							}
 						}
 					}
 				case *ssa.Call:
@@ -436,33 +445,20 @@ func runC19(c *Ctx) {
 				}
 			}
 		})
-		phi, _ := sev.(*ssa.Phi)
-		okSev := phi != nil && len(phi.Edges) == 2
-		if okSev {
-			for i, e := range phi.Edges {
-				s, isS := core.ConstString(e)
-				if !isS || (s != "ERROR" && s != "NORMAL") {
-					okSev = false
-					continue
-				}
-				// condition under which this edge is taken
-				pred := phi.Block().Preds[i]
-				cond, truth, found := edgeCondition(pred, phi.Block())
-				if !found {
-					okSev = false
-					continue
-				}
-				for _, k := range []int64{-8, -4, 0, 4, 7, 8, 9, 12} {
-					v, ok := evalCmpAt(cond, lvl, k)
-					if !ok {
-						okSev = false
-						break
-					}
-					taken := v == truth
-					if taken && (s == "ERROR") != (k >= 8) {
-						okSev = false
-					}
-				}
+		// the constructor is run, abstractly, for levels around the threshold:
+		// branch conditions are evaluated on the level, phis take the value of
+		// the edge actually taken, and the string stored in Severity is compared
+		// with the specification
+		_ = sev
+		okSev := true
+		for _, k := range []int64{-8, -4, 0, 4, 7, 8, 9, 12} {
+			got, ok := concreteStoredString(mk, map[ssa.Value]int64{lvl: k}, "Severity")
+			want := "NORMAL"
+			if k >= 8 {
+				want = "ERROR"
+			}
+			if !ok || got != want {
+				okSev = false
 			}
 		}
 		c.check(okSev, "C19.severity", mk, "severity == \"ERROR\" iff level >= slog.LevelError (8), else \"NORMAL\"", nil, "decision evaluated at the levels around every threshold")
@@ -477,11 +473,28 @@ func runC19(c *Ctx) {
 		c.check(okMsg, "C19.message", mk, "Message is the text passed in", nil, "no transformation of the message")
 	}
 	if en != nil {
+		// the result as a function of (l, threshold), evaluated on a grid: the
+		// threshold is whatever h.level.Level() returns
 		okEn := false
-		for _, ret := range core.Returns(en) {
-			if b, ok := ret.Results[0].(*ssa.BinOp); ok && b.Op == token.GEQ && b.X == ssa.Value(en.Params[2]) {
-				if call, ok := b.Y.(*ssa.Call); ok && call.Call.IsInvoke() && call.Call.Method.Name() == "Level" {
-					okEn = true
+		var lvCalls []ssa.Value
+		core.EachInstr(en, func(in ssa.Instruction) {
+			if call, ok := in.(*ssa.Call); ok && call.Call.IsInvoke() && call.Call.Method.Name() == "Level" {
+				lvCalls = append(lvCalls, call)
+			}
+		})
+		rets := core.Returns(en)
+		if len(lvCalls) >= 1 && len(rets) == 1 {
+			okEn = true
+			for _, l := range []int64{-8, -4, 0, 3, 4, 8, 12} {
+				for _, t := range []int64{-4, 0, 4, 8} {
+					env := map[ssa.Value]int64{en.Params[2]: l}
+					for _, lc := range lvCalls {
+						env[lc] = t
+					}
+					v, ok := evalSmall(rets[0].Results[0], env, 0)
+					if !ok || (v != 0) != (l >= t) {
+						okEn = false
+					}
 				}
 			}
 		}
@@ -746,4 +759,78 @@ func nilTextOnlyWithError(fs *core.FactSet, mk ssa.Instruction, from *ssa.BasicB
 
 func errorIface() *types.Interface {
 	return types.Universe.Lookup("error").Type().Underlying().(*types.Interface)
+}
+
+// concreteStoredString walks the function along the one path selected by the
+// integer valuation env (every branch condition must be decided by it) and
+// returns the string constant stored last into the named field.
+func concreteStoredString(f *ssa.Function, env map[ssa.Value]int64, field string) (string, bool) {
+	strs := map[ssa.Value]string{}
+	str := func(v ssa.Value) (string, bool) {
+		if s, ok := core.ConstString(v); ok {
+			return s, true
+		}
+		s, ok := strs[v]
+		return s, ok
+	}
+	blk := f.Blocks[0]
+	var prev *ssa.BasicBlock
+	result, have := "", false
+	cells := map[ssa.Value]string{}
+	for steps := 0; steps < 200; steps++ {
+		next := (*ssa.BasicBlock)(nil)
+		for _, in := range blk.Instrs {
+			switch x := in.(type) {
+			case *ssa.Phi:
+				for i, p := range blk.Preds {
+					if p != prev {
+						continue
+					}
+					if s, ok := str(x.Edges[i]); ok {
+						strs[x] = s
+					}
+					if k, ok := evalSmall(x.Edges[i], env, 0); ok {
+						env[x] = k
+					}
+				}
+			case *ssa.Store:
+				if fa, ok := x.Addr.(*ssa.FieldAddr); ok && core.FieldName(fa) == field {
+					if s, ok := str(x.Val); ok {
+						result, have = s, true
+					} else {
+						have = false
+					}
+				} else if s, ok := str(x.Val); ok {
+					cells[x.Addr] = s
+				}
+			case *ssa.UnOp:
+				if x.Op == token.MUL {
+					if s, ok := cells[x.X]; ok {
+						strs[x] = s
+					}
+				}
+			case *ssa.If:
+				v, ok := evalSmall(x.Cond, env, 0)
+				if !ok {
+					return "", false
+				}
+				if v != 0 {
+					next = blk.Succs[0]
+				} else {
+					next = blk.Succs[1]
+				}
+			case *ssa.Jump:
+				next = blk.Succs[0]
+			case *ssa.Return:
+				return result, have
+			case *ssa.Panic:
+				return "", false
+			}
+		}
+		if next == nil {
+			return "", false
+		}
+		prev, blk = blk, next
+	}
+	return "", false
 }
